@@ -144,7 +144,27 @@ Definition p_open (a : args) : list (list Z) :=
   else let okm := if (argz 0 a =? 0)%Z then pq_footer_ok (arg 1 a) else ipc_footer_ok (arg 1 a) in
        if (argz 3 a =? 0)%Z && negb okm then no [1%Z] else ok1.
 
+(* ------------------------------------------------------------------ the sink model against std
+   write_all : [script] [buf] [sticky] -> [outcome 0 Done / 1 Failed] [bytes emitted] [responses left]
+   run       : [script] [sticky] [trace] [bytes] -> [outcome] [bytes emitted]
+   script codes: n >= 0 = Accept n, -1 = Interrupted, -2 = Ok(0), -3 = Err, -4 = accept everything.
+   The implementation side is std::io::Write::write_all / flush on a sink that answers from the same
+   script, so a disagreement means std does not behave as Model/C18_Fault.v assumes. *)
+Definition resp_of (z : Z) : resp :=
+  if (0 <=? z)%Z then Accept (Z.to_nat z)
+  else if (z =? (-1))%Z then Interrupted
+  else if (z =? (-2))%Z then Zero
+  else if (z =? (-3))%Z then Fail
+  else AcceptAll.
+Definition outcome_code (o : outcome) : Z := match o with Done => 0%Z | Failed => 1%Z end.
+Definition d_write_all (a : args) : list (list Z) :=
+  let '(o, out, s') := write_all (map resp_of (arg 0 a)) (argb 2 a) (arg 1 a) in
+  [[outcome_code o]; out; [Z.of_nat (List.length s')]].
+Definition d_run (a : args) : list (list Z) :=
+  let '(o, out) := run (map resp_of (arg 0 a)) (argb 1 a) (calls_of (arg 2 a) (arg 3 a)) in
+  [[outcome_code o]; out].
+
 Definition ops_C18 : list (string * opfun) :=
   [ ("c18.wfault.post", p_wfault); ("c18.trunc.post", p_trunc); ("c18.rfault.post", p_rfault);
     ("c18.pq_tail", d_pq_tail); ("c18.ipc_footer_len", d_ipc_footer_len);
-    ("c18.open.post", p_open) ].
+    ("c18.open.post", p_open); ("c18.write_all", d_write_all); ("c18.run", d_run) ].
